@@ -725,6 +725,10 @@ func dechunk(raw []byte) ([]byte, bool) {
 	return append(out, body...), true
 }
 
+// recordedSites are allocation sites already recorded as bounded findings (known_findings.json,
+// KF-C07-2/5/6/7); only they may name a combination of several contributing components.
+var recordedSites = map[string]bool{"compressed-body-inflate": true, "announced-content-length": true, "announced-chunk-size": true, "bind-slice-index": true}
+
 // allocSite attributes the allocation of an over-budget request by evidence: the request is
 // measured again (cold pools, fresh app) with one component neutralised at a time; the component
 // whose removal alone brings the request under the limit (plus the cost of refilling cold pools,
@@ -858,6 +862,62 @@ func allocSite(e *ev.Env, c *ev.Case, mk func() *fiber.App, input []byte, limit,
 	if len(full) == 1 {
 		// another component may merely multiply the cost (a typed body is read several times)
 		explains = full
+	}
+	if len(explains) == 0 && len(present) > 1 {
+		// Several components may contribute at once (an inflated request body AND the working
+		// memory of a compressed response): neutralise them pairwise, finally all together. The
+		// first set that brings the request within the threshold explains it.
+		without := func(set []comp) (uint64, bool) {
+			alt := input
+			for _, g := range set {
+				if a2, ok := g.alt(alt); ok {
+					alt = a2
+				}
+			}
+			d, p := coldAlloc(e, c, mk, alt)
+			if e.Verbose {
+				var ns []string
+				for _, g := range set {
+					ns = append(ns, g.name)
+				}
+				println("allocSite: without", strings.Join(ns, "+"), "->", d)
+			}
+			return d, !p && d <= threshold
+		}
+		var set []comp
+	search:
+		for i := range present {
+			for j := i + 1; j < len(present); j++ {
+				if _, ok := without([]comp{present[i], present[j]}); ok {
+					set = []comp{present[i], present[j]}
+					break search
+				}
+			}
+		}
+		if set == nil && len(present) > 2 {
+			if _, ok := without(present); ok {
+				set = present
+			}
+		}
+		// Of the set, components whose cost is allowed for (response compression) do not name the
+		// site. One other component: that is the site. Several: only if all of them are sites
+		// already recorded as bounded findings the first (in the fixed order) names it - a set
+		// with a component that is not, stays unattributed and is reported as such.
+		var sites []string
+		allRecorded := true
+		for _, g := range set {
+			if g.name == "response-compression" {
+				continue
+			}
+			sites = append(sites, g.name)
+			allRecorded = allRecorded && recordedSites[g.name]
+		}
+		switch {
+		case set != nil && len(sites) == 0:
+			explains = []string{"response-compression"}
+		case len(sites) == 1, len(sites) > 1 && allRecorded:
+			explains = sites[:1]
+		}
 	}
 	// "typed-body" is implied by the more specific multipart component
 	if len(explains) == 2 && explains[0] == "multipart-form" && explains[1] == "typed-body" {
